@@ -264,9 +264,9 @@ Proof. unfold alg_pass. destruct (m =? 0); apply safe_ok. Qed.
 
 (* ---- the dispatcher: every entry point except the session-id allocator (which has its own
    theorem under the table well-formedness hypothesis) *)
-Lemma call_safe e p d tail : e <> 9 -> safe (call e p d tail).
+Lemma call_safe e p d tail : e <> 9 -> e <> 14 -> safe (call e p d tail).
 Proof.
-  intros He. unfold call.
+  intros He He14. unfold call.
   destruct (e =? 1). { apply safe_bind; [apply parse_header_safe|intros [[[v c] s] l] _; apply safe_ok]. }
   destruct (e =? 2). { apply parse_tags_safe. }
   destruct (e =? 3). { apply safe_bind; [apply parse_lcp_packet_safe|intros [[[c i] l] v] _; apply safe_ok]. }
@@ -280,6 +280,7 @@ Proof.
   destruct (e =? 11). { apply ipcp_receive_safe. }
   destruct (e =? 12). { apply ip6cp_receive_safe. }
   destruct (e =? 13). { apply auth_receive_safe. }
+  destruct (e =? 14) eqn:E14. { apply N.eqb_eq in E14. contradiction. }
   destruct (e =? 20). { apply d6_message_safe. }
   destruct (e =? 21). { apply d6_options_safe. }
   destruct ((e =? 22) || (e =? 23)). { apply d6_ia_safe. }
@@ -295,10 +296,10 @@ Proof.
 Qed.
 
 (* refinement: the Spec acceptor accepts every outcome the Model produces for a single call *)
-Lemma model_call_accepted e p d tail : e <> 9 ->
+Lemma model_call_accepted e p d tail : e <> 9 -> e <> 14 ->
   accept tt (Call e p d tail) (run_op (Call e p d tail)) = inl tt.
 Proof.
-  intros He. cbn [run_op]. destruct (call_safe e p d tail He) as [H1 H2].
+  intros He He14. cbn [run_op]. destruct (call_safe e p d tail He He14) as [H1 H2].
   destruct (call e p d tail); cbn; try congruence; reflexivity.
 Qed.
 
